@@ -3758,6 +3758,11 @@ class _DiskCacheWrapper:
         self.reuse = reuse
 
         import diskcache
+        if cache_dir is not None:
+            # diskcache expands "~" and environment variables. Do the same
+            # here, so that the check below looks at the same directory.
+            import os
+            cache_dir = os.path.expandvars(os.path.expanduser(str(cache_dir)))
         if cache_dir is not None and Path(cache_dir).is_dir() and len(
                 list(Path(cache_dir).glob('*'))) > 0:
             if reuse:
